@@ -389,3 +389,108 @@ def failure_edges(body, tracer, call):
             if be:
                 return (be["true"], be["false"]) if t.callee.endswith("is_err") else (be["false"], be["true"])
     return None
+
+
+def counter_loop_bound(body, tracer, header, blks):
+    """Termination witness for `let mut n = K; while n > 0 { n -= c; .. }` (and the ascending form): the loop is left
+    on a comparison of a local with a constant, every assignment to that local inside the loop moves it towards the
+    exit by a positive constant, and every cycle through the header passes such an assignment.
+    -> (bound on the number of iterations or None if the start value is not a constant, description) or None."""
+    cfg = cfg_of(body)
+    for bb in sorted(blks):
+        blk = body.blocks[bb]
+        t = blk.term
+        if blk.cleanup or t.kind != "switch" or t.raw.get("dty") != "bool":
+            continue
+        d = Operand(t.raw["d"])
+        if d.place is None or not d.place.is_local:
+            continue
+        cmp_ = None
+        for i, s_ in enumerate(blk.stmts):
+            if s_.kind == "assign" and s_.lhs.is_local and s_.lhs.local == d.place.local and s_.rv["k"] == "bin" and s_.rv["op"] in ("Gt", "Ge", "Lt", "Le", "Ne"):
+                cmp_ = (i, s_)
+        if cmp_ is None:
+            continue
+        i, s_ = cmp_
+        a, c = Operand(s_.rv["a"]), Operand(s_.rv["b"])
+        if c.is_const and a.place is not None:
+            var, k, flipped = a, c.int_value(True), False
+        elif a.is_const and c.place is not None:
+            var, k, flipped = c, a.int_value(True), True
+        else:
+            continue
+        # the counter local (through the copy made for the comparison)
+        L = var.place.local
+        for s2 in blk.stmts[:i]:
+            if s2.kind == "assign" and s2.lhs.is_local and s2.lhs.local == L and s2.rv["k"] == "use":
+                o2 = Operand(s2.rv["a"])
+                if o2.place is not None and o2.place.is_local:
+                    L = o2.place.local
+        op = s_.rv["op"]
+        if flipped:
+            op = {"Gt": "Lt", "Ge": "Le", "Lt": "Gt", "Le": "Ge", "Ne": "Ne"}[op]
+        descending = op in ("Gt", "Ge", "Ne")      # continue while n > k / n >= k / n != k
+        # which edge leaves the loop?
+        exits = [e for e in cfg.succ.get(bb, []) if e.dst not in blks]
+        if not exits:
+            continue
+        # assignments to L inside the loop
+        steps = []
+        ok = True
+        for x in blks:
+            xb = body.blocks[x]
+            for j, s3 in enumerate(xb.stmts):
+                if s3.kind != "assign" or s3.lhs.local != L:
+                    continue
+                if not s3.lhs.is_local:
+                    ok = False
+                    continue
+                rv = s3.rv
+                step = None
+                if rv["k"] == "bin" and rv["op"] in ("Sub", "Add", "SubUnchecked", "AddUnchecked"):
+                    step = _const_step(body, Operand(rv["a"]), Operand(rv["b"]), L, rv["op"])
+                elif rv["k"] == "use":
+                    o3 = Operand(rv["a"])
+                    # L = move (_t.0) where _t = SubWithOverflow(copy L, const)
+                    if o3.place is not None and o3.place.proj and o3.place.fields()[:1] == ["0"]:
+                        for y in blks:
+                            for s4 in body.blocks[y].stmts:
+                                if s4.kind == "assign" and s4.lhs.is_local and s4.lhs.local == o3.place.local and s4.rv["k"] == "bin" and \
+                                        s4.rv["op"] in ("SubWithOverflow", "AddWithOverflow"):
+                                    step = _const_step(body, Operand(s4.rv["a"]), Operand(s4.rv["b"]), L, s4.rv["op"])
+                if step is None or step == 0 or (step < 0) != descending:
+                    ok = False
+                else:
+                    steps.append((x, abs(step)))
+            tt = xb.term
+            if tt.kind == "call" and tt.dest is not None and tt.dest.local == L:
+                ok = False
+        if not ok or not steps:
+            continue
+        # every cycle passes a step
+        if header in cfg.reachable([e.dst for e in cfg.succ.get(header, []) if e.dst in blks], cut_nodes=[x for x, _ in steps]) and \
+                any(header in cfg.reachable(e.dst, cut_nodes=[x for x, _ in steps]) for e in cfg.succ.get(header, []) if e.dst in blks):
+            continue
+        # start value
+        init = None
+        du_origins = tracer.origins(body, header, 0, Place({"l": L, "p": []}))
+        consts = [o.const_int(True) for o in du_origins if o.kind == "const"]
+        others = [o for o in du_origins if o.kind not in ("const", "expr")]
+        if consts and not others and k is not None:
+            init = max(consts) if descending else min(consts)
+            bound = (abs(init - k) // min(st for _x, st in steps)) + 1
+            return bound, "counter _%d from %d towards %d in steps of %d" % (L, init, k, min(st for _x, st in steps))
+        return None, "counter _%d moves towards %s by a positive constant on every iteration" % (L, k)
+    return None
+
+
+def _const_step(body, a, b, L, op):
+    """Signed step of `L op const`; None if the statement is not of that shape."""
+    sign = -1 if op.startswith("Sub") else 1
+    if a.place is not None and a.place.is_local and a.place.local == L and b.is_const:
+        v = b.int_value(True)
+        return sign * v if v is not None else None
+    if op.startswith("Add") and b.place is not None and b.place.is_local and b.place.local == L and a.is_const:
+        v = a.int_value(True)
+        return v
+    return None
